@@ -670,19 +670,8 @@ class NetworkXPropertyGraph(ABCPropertyGraph, NetworkXMixin):
         # remember that graphid is ignored in get_graph in this implementation, but respected
         # in the disjoint implementation
 
-        # merge the nodes in situ
-        nx.contracted_nodes(self.storage.get_graph(self.graph_id), real_node, real_other_node, copy=False)
-
-        # relationships present on both nodes are kept once with the properties of the caller's
-        # edge; drop the 'contraction' bookkeeping networkx leaves on them (a dict, not serializable)
-        for _, _, edge_props in self.storage.get_graph(self.graph_id).edges(real_node, data=True):
-            edge_props.pop('contraction', None)
-
-        # deal with properties
-        # remove all properties, including 'contracted' new property
-        self.storage.get_graph(self.graph_id).nodes[real_node].clear()
-
-        # construct a new set of properties
+        # construct the new set of properties before touching the graph: a policy naming a property
+        # the other node lacks raises KeyError, which must not leave the nodes half merged
         new_props = dict()
         if merge_properties is None:
             new_props = node_props
@@ -694,6 +683,18 @@ class NetworkXPropertyGraph(ABCPropertyGraph, NetworkXMixin):
                             [node_props[k], other_props[k]] if merge_properties[k] == 'combine' else None
                 else:
                     new_props[k] = node_props[k]
+
+        # merge the nodes in situ
+        nx.contracted_nodes(self.storage.get_graph(self.graph_id), real_node, real_other_node, copy=False)
+
+        # relationships present on both nodes are kept once with the properties of the caller's
+        # edge; drop the 'contraction' bookkeeping networkx leaves on them (a dict, not serializable)
+        for _, _, edge_props in self.storage.get_graph(self.graph_id).edges(real_node, data=True):
+            edge_props.pop('contraction', None)
+
+        # deal with properties
+        # remove all properties, including 'contracted' new property
+        self.storage.get_graph(self.graph_id).nodes[real_node].clear()
         self.storage.get_graph(self.graph_id).nodes[real_node].update(new_props)
 
     def get_stitch_nodes(self) -> List[str]:
